@@ -283,7 +283,7 @@ func kindOfPath(e *Edge) string {
 
 // applyAct performs the call of edge e on root. It returns the error of the call and
 // the gNMI path used.
-func applyAct(e *Edge, root ygot.GoStruct, sch *yang.Entry, pkg *reg.Pkg, x *conc.Ctx, enc string) (*gpb.Path, *gpb.TypedValue, string, error, string, error) {
+func applyAct(e *Edge, root ygot.GoStruct, sch *yang.Entry, pkg *reg.Pkg, x *conc.Ctx, enc string, res *rep.Result) (*gpb.Path, *gpb.TypedValue, string, error, string, error) {
 	path, err := x.GNMIPath(e.Act.P, pkg)
 	if err != nil {
 		return nil, nil, "", nil, "", err
@@ -327,11 +327,33 @@ func applyAct(e *Edge, root ygot.GoStruct, sch *yang.Entry, pkg *reg.Pkg, x *con
 	var pan string
 	switch e.Act.Op {
 	case "set", "setll":
+		tvBefore, pathBefore := proto.Clone(tv), proto.Clone(path)
 		callErr, pan = guard(func() error {
 			return ytypes.SetNode(sch, root, path, tv, &ytypes.InitMissingElements{})
 		})
+		if !proto.Equal(tvBefore, tv) || !proto.Equal(pathBefore, path) {
+			res.Violate("C11", map[string]string{"conjunct": "setnode-mutates-message", "enc": enc, "type": typ},
+				fmt.Sprintf("SetNode modified the path or TypedValue it was given: %v -> %v", tvBefore, tv), &TreeCase{Sub: "tree", Edge: e, Pkg: pkg.Name, Variant: x.V.Name, Seed: x.Seed, Enc: enc})
+		}
+		// the tolerance option takes the value through the JSON-inconsistency branch
+		if num := tolerantNumber(tv); num != nil {
+			scratch := pkg.NewRoot()
+			numBefore := proto.Clone(num)
+			guard(func() error {
+				return ytypes.SetNode(sch, scratch, path, num, &ytypes.InitMissingElements{}, &ytypes.TolerateJSONInconsistencies{})
+			})
+			if !proto.Equal(numBefore, num) {
+				res.Violate("C11", map[string]string{"conjunct": "setnode-tolerant-mutates-message", "type": typ},
+					fmt.Sprintf("SetNode with TolerateJSONInconsistencies modified the TypedValue it was given: %v -> %v", numBefore, num), &TreeCase{Sub: "tree", Edge: e, Pkg: pkg.Name, Variant: x.V.Name, Seed: x.Seed, Enc: enc})
+			}
+		}
 	case "delete":
+		pathBefore := proto.Clone(path)
 		callErr, pan = guard(func() error { return ytypes.DeleteNode(sch, root, path) })
+		if !proto.Equal(pathBefore, path) {
+			res.Violate("C11", map[string]string{"conjunct": "deletenode-mutates-path"}, fmt.Sprintf("DeleteNode modified its path: %v -> %v", pathBefore, path),
+				&TreeCase{Sub: "tree", Edge: e, Pkg: pkg.Name, Variant: x.V.Name, Seed: x.Seed, Enc: enc})
+		}
 	default:
 		return nil, nil, "", nil, "", fmt.Errorf("unknown op %s", e.Act.Op)
 	}
@@ -588,7 +610,7 @@ func runTreeEdge(e *Edge, pkg *reg.Pkg, x *conc.Ctx, enc, prop string, res *rep.
 		res.InfraErr("binding self-test failed %s/%s: Project(Build(t)) != t: %v", pkg.Name, x.V.Name, abs.Diff(back, pre, true))
 		return
 	}
-	path, tv, want, callErr, pan, err := applyAct(e, root, sch, pkg, x, enc)
+	path, tv, want, callErr, pan, err := applyAct(e, root, sch, pkg, x, enc, res)
 	if err != nil {
 		if _, ok := err.(conc.ErrNoValue); ok {
 			res.Skip(1)
@@ -644,7 +666,7 @@ func runWalk(graph map[string][]*Edge, pkg *reg.Pkg, x *conc.Ctx, n int, rng *ra
 			return
 		}
 		pre := conc.Restrict(abs.Project(root, pkg), x.V)
-		path, _, want, callErr, pan, err := applyAct(e, root, sch, pkg, x, enc)
+		path, _, want, callErr, pan, err := applyAct(e, root, sch, pkg, x, enc, res)
 		if err != nil {
 			if _, ok := err.(conc.ErrNoValue); ok {
 				continue
@@ -671,4 +693,36 @@ func runWalk(graph map[string][]*Edge, pkg *reg.Pkg, x *conc.Ctx, n int, rng *ra
 		cur = &e.Post
 	}
 	res.Count("walks", 1)
+}
+
+// tolerantNumber returns, for an integer TypedValue, the same number in the form a JSON decoder
+// would have produced it (the other signedness / a double), which SetNode only accepts with
+// TolerateJSONInconsistencies.
+func tolerantNumber(tv *gpb.TypedValue) *gpb.TypedValue {
+	switch v := tv.GetValue().(type) {
+	case *gpb.TypedValue_IntVal:
+		if v.IntVal >= 0 {
+			return &gpb.TypedValue{Value: &gpb.TypedValue_UintVal{UintVal: uint64(v.IntVal)}}
+		}
+		return &gpb.TypedValue{Value: &gpb.TypedValue_DoubleVal{DoubleVal: float64(v.IntVal)}}
+	case *gpb.TypedValue_UintVal:
+		if v.UintVal < 1<<62 {
+			return &gpb.TypedValue{Value: &gpb.TypedValue_IntVal{IntVal: int64(v.UintVal)}}
+		}
+	case *gpb.TypedValue_LeaflistVal:
+		out := &gpb.ScalarArray{}
+		any := false
+		for _, e := range v.LeaflistVal.Element {
+			if n := tolerantNumber(e); n != nil {
+				out.Element = append(out.Element, n)
+				any = true
+			} else {
+				out.Element = append(out.Element, e)
+			}
+		}
+		if any {
+			return &gpb.TypedValue{Value: &gpb.TypedValue_LeaflistVal{LeaflistVal: out}}
+		}
+	}
+	return nil
 }
